@@ -10,6 +10,7 @@ THEOREMS = ["C01_original_space_clamp", "C01_filter_output_in_hard_box", "C01_se
             "C01_start_in_box_unit_geometry", "C01_start_no_nudge_unit_geometry", "C01_start_nudged_in_any_box_refuted", "C01_hand_model_is_source"]
 ALLOWED_AXIOMS = ["ClassicalDedekindReals.sig_forall_dec", "ClassicalDedekindReals.sig_not_dec",
                   "FunctionalExtensionality.functional_extensionality_dep", "Classical_Prop.classic"]
+AXIOM_THEOREMS = ["C01_original_space_clamp"]      # every other theorem of this property must be closed under the global context
 LEVEL = "proof"
 RULE = ("real runs over the panel (D 1-4; linear / log-transformed / unbounded / mixed / tight boxes; optimum inside, on and OUTSIDE the box pressing on a face; x0 given / absent / on a bound; "
         "all noise modes; constraints) compared with the skeleton model; the premises of C01_internal_points_in_box (provenance of every evaluated point from a recorded filter output, "
